@@ -428,3 +428,11 @@ B('C13.class-level-list-fallback', ['C13'], [(P + 'common/classes.py', _LT_INIT,
 N('benign.class-level-list-always-rebound', [(P + 'common/classes.py', _LT_INIT,
   "    _primary_subtag = None\n    _subsequent_subtags = []\n\n    def __init__(self, primary_subtag, subsequent_subtags=()):\n"
   "        self.primary_subtag = primary_subtag\n        self.subsequent_subtags = subsequent_subtags\n")])
+# the native value of an OPTIONAL ASN.1 field used as a container without a test (None for a version 1 certificate)
+_SCT_LOOP = "        for extension in self._certificate['tbs_certificate']['extensions']:\n            if extension['extn_id'].dotted == '1.3.6.1.4.1.11129.2.4.2':\n"
+B('C14.optional-asn1-field-native', ['C14'], [(P + 'common/x509.py', _SCT_LOOP,
+  "        for extension in self._certificate['tbs_certificate']['extensions'].native:\n            if extension['extn_id'] == 'signed_certificate_timestamp_list':\n")],
+  mention=['C14.R14', 'extensions'])
+N('benign.optional-asn1-field-tested', [(P + 'common/x509.py', _SCT_LOOP,
+  "        extensions = self._certificate['tbs_certificate']['extensions']\n        if extensions.native is None:\n            return SignedCertificateTimestampList([])\n"
+  "        for extension in extensions:\n            if extension['extn_id'].dotted == '1.3.6.1.4.1.11129.2.4.2':\n")])
